@@ -410,3 +410,72 @@ M("C10-absent-worker-stays-working", "C10", "R10.2", WK,
   """        if len(self.assigned_task_list) == 0 and step_time in self.absence_time_list:
             self.state = BaseWorkerState.ABSENCE
         elif len(self.assigned_task_list) == 0:""")
+
+# ---------------------------------------------------------------------------------------- C17
+M("C17-no-finally", "C17", "R17.1", PJ,
+  """        finally:
+            self.simulation_mode = SimulationMode.BACKWARD""",
+  """        except Exception:
+            raise
+        else:
+            self.simulation_mode = SimulationMode.BACKWARD""")
+M("C17-restore-only-workflow", "C17", "R17.1", PJ,
+  """            self.workflow.reverse_dependencies()
+            self.organization.reverse_dependencies()
+""",
+  """            self.workflow.reverse_dependencies()
+""")
+M("C17-swap-only-inputs", "C17", "R17.2", WF,
+  """            task.output_task_list = task.dummy_output_task_list
+            task.input_task_list = task.dummy_input_task_list""",
+  """            task.input_task_list = task.dummy_input_task_list""")
+M("C17-helper-left-linked", "C17", "R17.3", PJ,
+  """                for task, dependency in autotask.output_task_list:
+                    task.input_task_list.remove([autotask, dependency])
+""", "")
+M("C17-helper-untracked", "C17", "R17.3", PJ,
+  """                        autotask_removing_after_simulation.add(auto_task)
+""", "")
+M("C17-restore-conditional", "C17", "R17.1", PJ,
+  """            if reverse_log_information:
+                self.reverse_log_information()
+            self.workflow.reverse_dependencies()
+            self.organization.reverse_dependencies()""",
+  """            if reverse_log_information:
+                self.reverse_log_information()
+                self.workflow.reverse_dependencies()
+                self.organization.reverse_dependencies()""")
+M("C17-copying-swap", "C17", "R17.2", OG,
+  """            workplace.output_workplace_list = workplace.dummy_output_workplace_list""",
+  """            workplace.output_workplace_list = list(workplace.dummy_output_workplace_list)""")
+M("C17-temporary-left", "C17", "R17.2", WF,
+  """            del task.dummy_output_task_list, task.dummy_input_task_list
+""", "")
+M("C17-work-before-try", "C17", "R17.1", PJ,
+  """        autotask_removing_after_simulation = set()
+        try:""",
+  """        autotask_removing_after_simulation = set()
+        self.workflow.update_PERT_data(0)
+        try:""")
+M("C17-sim-step-edits-structure", "C17", "R17.4", WF,
+  """                task.allocated_worker_list = []
+                if task.need_facility:""",
+  """                task.allocated_worker_list = []
+                task.output_task_list = [x for x in task.output_task_list]
+                if task.need_facility:""")
+M("C17-restore-before-cleanup", "C17", "R17.1", PJ,
+  """            self.simulation_mode = SimulationMode.BACKWARD
+            for autotask in autotask_removing_after_simulation:""",
+  """            self.simulation_mode = SimulationMode.BACKWARD
+            self.workflow.reverse_dependencies()
+            self.organization.reverse_dependencies()
+            self.workflow.reverse_dependencies()
+            self.organization.reverse_dependencies()
+            for autotask in autotask_removing_after_simulation:""")
+B("benign-finally-order", ["C17"], PJ,
+  """            self.workflow.reverse_dependencies()
+            self.organization.reverse_dependencies()
+""",
+  """            self.organization.reverse_dependencies()
+            self.workflow.reverse_dependencies()
+""")
